@@ -148,7 +148,7 @@ impl Arena {
 //@@end
 
 //@@fn file=unsync.rs scope="impl Allocator for Arena {" name=increase_discarded rename=increase_discarded__ro xlate=unsync st=mut props=C09
-//@subst /rt_panic\(\)/ => rt_panic_documented()
+//@subst? /rt_panic\(\)/ => rt_panic_documented()
 //@contract @increase_discarded__ro
 //@@end
 
@@ -356,6 +356,7 @@ impl Arena {
     let ghost n = l[k];
     proof {
       lemma_first_idx_props_from(l, size, true, 0);
+      assert(chk(true, size, l[k].1));
       lemma_dec_enc(size_of_cell(l, k - 1), next_of(l, k - 1));
       lemma_dec_enc(size_of_cell(l, k), next_of(l, k));
       assert(node_ok(self.av(), s0, n));
@@ -555,8 +556,6 @@ impl Arena {
         lemma_nodes_below(self.av(), s0);
         lemma_wf_frame(self.av(), s0, st@, s0.allocated, self.cap as int);
       }
-//@before 1 /match self\.freelist \{/
-    proof { lemma_pick_policy(self.av(), s0, padded); }
 //@before 1 /bytes\.align_bytes_to::<T>\(\);/
             proof { lemma_align_up_props(bytes.memory_offset as int, align_of::<T>() as int); lemma_size_ge_align::<T>(); }
 //@before 2 /bytes\.align_bytes_to::<T>\(\);/
@@ -591,7 +590,7 @@ impl Arena {
 //@@end
 
 //@@fn file=unsync.rs scope="impl Allocator for Arena {" name=set_minimum_segment_size rename=set_minimum_segment_size__ro xlate=unsync st=mut props=C09
-//@subst /rt_panic\(\)/ => rt_panic_documented()
+//@subst? /rt_panic\(\)/ => rt_panic_documented()
 //@contract @set_minimum_segment_size__ro
 //@@end
 
